@@ -78,6 +78,28 @@ impl VFile {
     { unimplemented!() }
 }
 
+/// stands for std::fs::Metadata of a regular file (only its length is modelled)
+#[verifier::external_body]
+pub struct VMetadata { _p: u8 }
+impl VMetadata {
+    pub uninterp spec fn size(&self) -> int;
+    /// std::fs::Metadata::len: "the size of the file, in bytes"
+    #[verifier::external_body]
+    pub fn len(&self) -> (r: u64)
+        ensures r == self.size(),
+    { unimplemented!() }
+}
+impl VFile {
+    /// std::fs::File::metadata == fstat(2) (0 hits on /repo; lets an edit that asks for the length instead of
+    /// seeking to the end reach the verifier): takes `&self` -- neither the bytes nor the handle's POSITION
+    /// change; on success the metadata's length is the file's length (st_size, an off_t: fits i64, as for
+    /// `seek` above); it may fail.
+    #[verifier::external_body]
+    pub fn metadata(&self) -> (r: Result<VMetadata, IoError>)
+        ensures r matches Ok(m) ==> m.size() == self.len() && m.size() <= i64::MAX,
+    { unimplemented!() }
+}
+
 /// std's i64::saturating_add (vstd has a spec for the u64 one only): ASSUMED arithmetic contract
 pub assume_specification[ i64::saturating_add ](a: i64, b: i64) -> (r: i64)
     ensures r == (if a + b > i64::MAX { i64::MAX as int } else if a + b < i64::MIN { i64::MIN as int } else { a + b });
